@@ -35,6 +35,8 @@ pub enum RState {
     Held,
     InMsg(usize),
     Dropped,
+    /// member of the (single) receiver set
+    InSet,
 }
 
 #[derive(Clone, Debug, PartialEq, Eq, Hash, Serialize, Deserialize)]
@@ -42,6 +44,8 @@ pub enum Item {
     Data(u32),
     Tx(usize),
     Rx(usize),
+    /// a shared-memory region whose contents are derived from the tag
+    Region(u32),
 }
 
 #[derive(Clone, Debug, PartialEq, Eq, Hash, Serialize, Deserialize)]
@@ -56,6 +60,8 @@ pub struct World {
     pub handles: Vec<Handle>,
     pub msgs: Vec<Vec<Item>>,
     pub next_tag: u32,
+    #[serde(default)]
+    pub max_chans: usize,
 }
 
 #[derive(Clone, Copy, Debug, PartialEq, Eq, Hash, Serialize, Deserialize)]
@@ -78,6 +84,16 @@ pub enum Op {
     DropRx(usize),
     MoveThread(usize),
     MoveProc(usize),
+    /// message with a data item and a shared-memory region
+    SendRegion(usize),
+    /// move the receiver of this channel into the receiver set
+    SetAdd(usize),
+    /// select repeatedly until the ideal set has no pending event
+    SetDrain,
+    /// a new channel from ipc::channel()
+    NewChannel,
+    /// a new channel through a one-shot server: new, connect, send a first message, accept
+    OneShot,
 }
 
 #[derive(Clone, Debug, PartialEq, Eq, Serialize, Deserialize)]
@@ -89,6 +105,9 @@ pub enum Expect {
     Msg(Vec<Item>),
     Empty,
     Disconnected,
+    /// per member channel: the messages reported for it, in order, and whether it was then
+    /// reported closed (batching across select calls and order across members are normalised away)
+    Events(BTreeMap<usize, (Vec<Vec<Item>>, bool)>),
 }
 
 impl World {
@@ -98,6 +117,7 @@ impl World {
             handles: (0..nchan).map(|c| Handle { chan: c, st: HState::Held(Loc::Main) }).collect(),
             msgs: vec![],
             next_tag: 1,
+            max_chans: nchan,
         }
     }
 
@@ -111,7 +131,7 @@ impl World {
 
     pub fn rx_alive(&self, c: usize) -> bool {
         match self.chans[c].rx {
-            RState::Held => true,
+            RState::Held | RState::InSet => true,
             RState::Dropped => false,
             RState::InMsg(m) => self.msg_alive(m),
         }
@@ -145,7 +165,7 @@ impl World {
             match it {
                 Item::Tx(h) => self.handles[h].st = HState::Dropped,
                 Item::Rx(c) => self.kill_rx(c),
-                Item::Data(_) => {},
+                Item::Data(_) | Item::Region(_) => {},
             }
         }
     }
@@ -167,7 +187,7 @@ impl World {
                 match it {
                     Item::Tx(h) => self.handles[*h].st = HState::InMsg(m),
                     Item::Rx(r) => self.chans[*r].rx = RState::InMsg(m),
-                    Item::Data(_) => {},
+                    Item::Data(_) | Item::Region(_) => {},
                 }
             }
             self.chans[c].queue.push(m);
@@ -178,7 +198,7 @@ impl World {
                 match it {
                     Item::Tx(h) => self.handles[*h].st = HState::Dropped,
                     Item::Rx(r) => self.kill_rx(*r),
-                    Item::Data(_) => {},
+                    Item::Data(_) | Item::Region(_) => {},
                 }
             }
             Expect::SendErr
@@ -210,6 +230,28 @@ impl World {
             Op::DropRx(c) => self.chans[*c].rx == RState::Held,
             Op::MoveThread(h) => held_main(*h),
             Op::MoveProc(h) => held_main(*h),
+            Op::SendRegion(h) => held_main(*h) && room(*h),
+            Op::SetAdd(c) => self.chans[*c].rx == RState::Held,
+            Op::SetDrain => self.pending_set_events() > 0,
+            Op::NewChannel | Op::OneShot => self.chans.len() < self.max_chans,
+        }
+    }
+
+    pub fn set_members(&self) -> Vec<usize> {
+        (0..self.chans.len()).filter(|c| self.chans[*c].rx == RState::InSet).collect()
+    }
+
+    pub fn pending_set_events(&self) -> usize {
+        self.set_members().iter().map(|c| self.chans[*c].queue.len() + if self.live_senders(*c) == 0 { 1 } else { 0 }).sum()
+    }
+
+    fn deliver(&mut self, items: &[Item]) {
+        for it in items {
+            match it {
+                Item::Tx(h) => self.handles[*h].st = HState::Held(Loc::Main),
+                Item::Rx(c) => self.chans[*c].rx = RState::Held,
+                Item::Data(_) | Item::Region(_) => {},
+            }
         }
     }
 
@@ -243,13 +285,8 @@ impl World {
                 let e = self.peek(*chan);
                 if let Expect::Msg(items) = &e {
                     self.chans[*chan].queue.remove(0);
-                    for it in items {
-                        match it {
-                            Item::Tx(h) => self.handles[*h].st = HState::Held(Loc::Main),
-                            Item::Rx(c) => self.chans[*c].rx = RState::Held,
-                            Item::Data(_) => {},
-                        }
-                    }
+                    let items = items.clone();
+                    self.deliver(&items);
                 }
                 e
             },
@@ -265,7 +302,61 @@ impl World {
                 self.handles[*h].st = HState::Held(Loc::Proc);
                 Expect::Done
             },
+            Op::SendRegion(h) => {
+                let t = self.next_tag;
+                self.next_tag += 1;
+                self.send(*h, vec![Item::Region(t), Item::Data(t)])
+            },
+            Op::SetAdd(c) => {
+                self.chans[*c].rx = RState::InSet;
+                Expect::Done
+            },
+            Op::SetDrain => {
+                let mut ev: BTreeMap<usize, (Vec<Vec<Item>>, bool)> = BTreeMap::new();
+                // messages first (receiving hands endpoints to the program, which keeps them)
+                for c in self.set_members() {
+                    let q = std::mem::take(&mut self.chans[c].queue);
+                    let mut msgs = Vec::new();
+                    for m in q {
+                        let items = self.msgs[m].clone();
+                        self.deliver(&items);
+                        msgs.push(items);
+                    }
+                    ev.insert(c, (msgs, false));
+                }
+                for c in self.set_members() {
+                    if self.live_senders(c) == 0 {
+                        ev.get_mut(&c).unwrap().1 = true;
+                        self.chans[c].rx = RState::Dropped;
+                    }
+                }
+                ev.retain(|_, v| !v.0.is_empty() || v.1);
+                Expect::Events(ev)
+            },
+            Op::NewChannel | Op::OneShot => {
+                let c = self.chans.len();
+                self.chans.push(Chan { queue: vec![], rx: RState::Held });
+                self.handles.push(Handle { chan: c, st: HState::Held(Loc::Main) });
+                Expect::Done
+            },
         }
+    }
+
+    /// alphabet of C19: single-threaded programs (no moves), plus regions, the receiver set and
+    /// channel creation (plain and through a one-shot server)
+    pub fn ops19(&self, max_queue: usize, max_handles: usize) -> Vec<Op> {
+        let mut v: Vec<Op> = self.ops(max_queue, max_handles, false).into_iter().filter(|o| !matches!(o, Op::MoveThread(_))).collect();
+        for h in 0..self.handles.len() {
+            v.push(Op::SendRegion(h));
+        }
+        for c in 0..self.chans.len() {
+            v.push(Op::SetAdd(c));
+        }
+        v.push(Op::SetDrain);
+        v.push(Op::NewChannel);
+        v.push(Op::OneShot);
+        v.retain(|o| self.applicable(o, max_queue, max_handles));
+        v
     }
 
     pub fn ops(&self, max_queue: usize, max_handles: usize, with_proc: bool) -> Vec<Op> {
@@ -305,6 +396,7 @@ impl World {
             for it in &w.msgs[m] {
                 match it {
                     Item::Data(_) => s.push('d'),
+                    Item::Region(_) => s.push('g'),
                     Item::Tx(h) => s.push_str(&format!("T{}", w.handles[*h].chan)),
                     Item::Rx(c) => {
                         s.push_str(&format!("R{}", c));
@@ -328,6 +420,12 @@ impl World {
                     }
                 },
                 RState::Dropped => s.push('X'),
+                RState::InSet => {
+                    s.push('S');
+                    for q in &c.queue {
+                        msg_str(self, *q, &mut s);
+                    }
+                },
                 RState::InMsg(_) => s.push('M'), // its queue is printed where the message is
             }
             let mut held: BTreeMap<Loc, usize> = BTreeMap::new();
@@ -338,6 +436,7 @@ impl World {
             }
             s.push_str(&format!("{:?};", held));
         }
+        s.push_str(&format!("max{}", self.max_chans));
         s
     }
 }
@@ -350,6 +449,11 @@ pub enum W {
     Data(u32),
     Tx(IpcSender<Vec<W>>),
     Rx(IpcReceiver<Vec<W>>),
+    Shm(ipc_channel::ipc::IpcSharedMemory),
+}
+
+fn region_bytes(tag: u32) -> Vec<u8> {
+    crate::common::pattern(100 + (tag as usize % 7) * 1000, tag as u64)
 }
 
 struct ProcHandle {
@@ -362,11 +466,13 @@ pub struct Exec {
     pub senders: BTreeMap<usize, IpcSender<Vec<W>>>,
     pub receivers: BTreeMap<usize, IpcReceiver<Vec<W>>>,
     procs: BTreeMap<usize, ProcHandle>,
+    set: Option<ipc_channel::ipc::IpcReceiverSet>,
+    set_ids: BTreeMap<u64, usize>,
 }
 
 impl Exec {
     pub fn new(nchan: usize) -> Result<Exec, String> {
-        let mut e = Exec { senders: BTreeMap::new(), receivers: BTreeMap::new(), procs: BTreeMap::new() };
+        let mut e = Exec { senders: BTreeMap::new(), receivers: BTreeMap::new(), procs: BTreeMap::new(), set: None, set_ids: BTreeMap::new() };
         for c in 0..nchan {
             let (tx, rx) = ipc::channel::<Vec<W>>().map_err(|x| x.to_string())?;
             e.senders.insert(c, tx);
@@ -459,29 +565,8 @@ impl Exec {
                 };
                 match res {
                     Ok(items) => {
-                        // place received endpoints where the model says they go
-                        let mut seen = Vec::new();
                         let want: Vec<Item> = if let Expect::Msg(m) = expect { m.clone() } else { vec![] };
-                        for (i, it) in items.into_iter().enumerate() {
-                            match it {
-                                W::Data(t) => seen.push(Item::Data(t)),
-                                W::Tx(s) => match want.get(i) {
-                                    Some(Item::Tx(h)) => {
-                                        self.senders.insert(*h, s);
-                                        seen.push(Item::Tx(*h));
-                                    },
-                                    _ => seen.push(Item::Tx(usize::MAX)),
-                                },
-                                W::Rx(r) => match want.get(i) {
-                                    Some(Item::Rx(c)) => {
-                                        self.receivers.insert(*c, r);
-                                        seen.push(Item::Rx(*c));
-                                    },
-                                    _ => seen.push(Item::Rx(usize::MAX)),
-                                },
-                            }
-                        }
-                        Ok(Expect::Msg(seen))
+                        Ok(Expect::Msg(self.place(items, &want)))
                     },
                     Err(TryRecvError::Empty) => Ok(Expect::Empty),
                     Err(TryRecvError::IpcError(IpcError::Disconnected)) => Ok(Expect::Disconnected),
@@ -490,6 +575,80 @@ impl Exec {
             },
             Op::DropRx(c) => {
                 self.receivers.remove(c);
+                Ok(Expect::Done)
+            },
+            Op::SendRegion(h) => {
+                let t = w.next_tag;
+                let reg = ipc_channel::ipc::IpcSharedMemory::from_bytes(&region_bytes(t));
+                let ok = self.do_send(w, *h, vec![W::Shm(reg), W::Data(t)])?;
+                Ok(if ok { Expect::SendOk } else { Expect::SendErr })
+            },
+            Op::SetAdd(c) => {
+                let rx = self.receivers.remove(c).ok_or("no receiver to add")?;
+                if self.set.is_none() {
+                    self.set = Some(ipc_channel::ipc::IpcReceiverSet::new().map_err(|e| e.to_string())?);
+                }
+                let id = self.set.as_mut().unwrap().add(rx).map_err(|e| format!("set add: {}", e))?;
+                if self.set_ids.insert(id, *c).is_some() {
+                    return Err(format!("receiver set handed out id {} twice", id));
+                }
+                Ok(Expect::Done)
+            },
+            Op::SetDrain => {
+                let want = match expect {
+                    Expect::Events(e) => e.clone(),
+                    _ => BTreeMap::new(),
+                };
+                let total: usize = want.values().map(|(m, c)| m.len() + *c as usize).sum();
+                let mut got: BTreeMap<usize, (Vec<Vec<Item>>, bool)> = BTreeMap::new();
+                let mut n = 0;
+                while n < total {
+                    let evs = self.set.as_mut().ok_or("no set")?.select().map_err(|e| format!("select failed: {}", e))?;
+                    if evs.is_empty() {
+                        return Err("select returned no event".into());
+                    }
+                    for ev in evs {
+                        n += 1;
+                        match ev {
+                            ipc_channel::ipc::IpcSelectionResult::MessageReceived(id, m) => {
+                                let c = *self.set_ids.get(&id).ok_or_else(|| format!("event for unknown id {}", id))?;
+                                let items: Vec<W> = m.to().map_err(|e| format!("decode: {}", e))?;
+                                let idx = got.get(&c).map(|g| g.0.len()).unwrap_or(0);
+                                let wi: Vec<Item> = want.get(&c).and_then(|w| w.0.get(idx)).cloned().unwrap_or_default();
+                                let seen = self.place(items, &wi);
+                                got.entry(c).or_insert((vec![], false)).0.push(seen);
+                            },
+                            ipc_channel::ipc::IpcSelectionResult::ChannelClosed(id) => {
+                                let c = self.set_ids.remove(&id).ok_or_else(|| format!("closed event for unknown id {}", id))?;
+                                let e = got.entry(c).or_insert((vec![], false));
+                                if e.1 {
+                                    return Err(format!("channel {} reported closed twice", c));
+                                }
+                                e.1 = true;
+                            },
+                        }
+                    }
+                }
+                Ok(Expect::Events(got))
+            },
+            Op::NewChannel => {
+                let c = w.chans.len();
+                let (tx, rx) = ipc::channel::<Vec<W>>().map_err(|x| x.to_string())?;
+                self.senders.insert(w.handles.len(), tx);
+                self.receivers.insert(c, rx);
+                Ok(Expect::Done)
+            },
+            Op::OneShot => {
+                let c = w.chans.len();
+                let (server, name) = ipc_channel::ipc::IpcOneShotServer::<Vec<W>>::new().map_err(|e| format!("one-shot new: {}", e))?;
+                let tx = IpcSender::<Vec<W>>::connect(name).map_err(|e| format!("connect: {}", e))?;
+                tx.send(vec![W::Data(424242)]).map_err(|e| format!("first message: {}", e))?;
+                let (rx, first) = server.accept().map_err(|e| format!("accept: {}", e))?;
+                if first.len() != 1 || !matches!(first[0], W::Data(424242)) {
+                    return Err("accept returned a different first message".into());
+                }
+                self.senders.insert(w.handles.len(), tx);
+                self.receivers.insert(c, rx);
                 Ok(Expect::Done)
             },
             Op::MoveThread(_) => Ok(Expect::Done),
@@ -537,6 +696,35 @@ impl Exec {
         }
     }
 
+    /// place received endpoints where the model says they go; describe what arrived in model terms
+    fn place(&mut self, items: Vec<W>, want: &[Item]) -> Vec<Item> {
+        let mut seen = Vec::new();
+        for (i, it) in items.into_iter().enumerate() {
+            match it {
+                W::Data(t) => seen.push(Item::Data(t)),
+                W::Shm(m) => match want.get(i) {
+                    Some(Item::Region(t)) if &*m == &region_bytes(*t)[..] => seen.push(Item::Region(*t)),
+                    _ => seen.push(Item::Region(u32::MAX)),
+                },
+                W::Tx(s) => match want.get(i) {
+                    Some(Item::Tx(h)) => {
+                        self.senders.insert(*h, s);
+                        seen.push(Item::Tx(*h));
+                    },
+                    _ => seen.push(Item::Tx(usize::MAX)),
+                },
+                W::Rx(r) => match want.get(i) {
+                    Some(Item::Rx(c)) => {
+                        self.receivers.insert(*c, r);
+                        seen.push(Item::Rx(*c));
+                    },
+                    _ => seen.push(Item::Rx(usize::MAX)),
+                },
+            }
+        }
+        seen
+    }
+
     /// non-destructive probe of every receiver we hold for which the model predicts no message
     pub fn probe(&self, w: &World) -> Result<(), String> {
         for (c, rx) in &self.receivers {
@@ -578,7 +766,12 @@ impl Exec {
 
 /// Replay `path` from scratch on the real API, checking every result against the model.
 pub fn run_path(nchan: usize, path: &[Op], probe_each_step: bool) -> Result<(), String> {
-    let mut w = World::new(nchan);
+    run_path_from(World::new(nchan), path, probe_each_step)
+}
+
+pub fn run_path_from(w0: World, path: &[Op], probe_each_step: bool) -> Result<(), String> {
+    let nchan = w0.chans.len();
+    let mut w = w0;
     let mut e = Exec::new(nchan)?;
     let r = (|| {
         for (i, op) in path.iter().enumerate() {
